@@ -176,6 +176,8 @@ DAGS["ab_dfix_first_p_c"] = T(["A", "B", "P", "C"], [("A", "P", ["dfix"]), ("B",
 # input first; delay <= steps so that the requests reaching the shared source never go backwards)
 DAGS["a_p_two_links_dfix_b"] = T(["A", "P", "B"], [("A", "P"), ("P", "B", ["dfix"], {"out": "o"}),
                                                    ("P", "B", [], {"out": "o"})], delays_le_steps=True, offsets=False, order=[2, 1, 0])
+# adaptive stepping: C's step length follows the update count of its controller K (which it also reads)
+ADAPTIVE = T(["A", "K", {"name": "C", "nsteps": 2, "step_by": "K"}], [("A", "C"), ("K", "C")])
 # two links with their own delay-to-pull adapter into one consumer (the adapters' pull histories are per link)
 DAGS["two_dpull_inputs"] = T(["A", "B", "C"], [("A", "C", ["dpull1"]), ("B", "C", ["dpull1"])], order=[2, 0, 1])
 # two rings through ONE shared delay adapter behind A's output: A >> dfix >> {B, dfix >> C}; B >> A; C >> A
